@@ -288,6 +288,23 @@ func c07Run(c *Ctx) {
 	c.Case(func() interface{} {
 		return map[string]interface{}{"declaration": d.Describe(), "argv": fmt.Sprintf("%q", args), "intent": describeItems(d, items), "policy": policy, "unknown_token": tok, "context": cur.Name, "handler_mode": hmode}
 	})
+	warmed := false
+	if policy == "fail" && (c.K/3)%3 == 1 && len(d.Cmds) > 1 {
+		// the parser has been used before: an earlier parse (which selected some command) must not put anything in scope
+		tw := d.Cmds[1+r.Intn(len(d.Cmds)-1)]
+		w := GenScenario(c.Sub("warm"), d, &ScenCfg{MaxItems: 5, POcc: 40, PCluster: 5, PPos: 15, PCmd: 35, PTerm: 0, PQuoted: 0, Target: tw})
+		if w.Exp.Unspec == "" {
+			wa := w.Args()
+			if pi := safely(func() { b.P.ParseArgs(wa) }); pi != nil {
+				c.Violate("panic", "ParseArgs panicked during the earlier parse %q: %s", wa, pi.Value)
+				return
+			}
+			b.Log.E = nil
+			calls = nil
+			warmed = true
+			c.Note("earlier_parse_on_same_parser", fmt.Sprintf("%q", wa))
+		}
+	}
 	o := RunParse(b, args)
 	c.Count("parses", 1)
 	if o.Panic != nil {
@@ -295,6 +312,9 @@ func c07Run(c *Ctx) {
 		return
 	}
 	cell := fmt.Sprintf("%s/%s", policy, kind)
+	if warmed {
+		cell += "/reused-parser"
+	}
 	shape := fmt.Sprintf("pos=%d/%d depth=%d long=%v", pos, pi, cur.Depth, strings.HasPrefix(tok, "--"))
 	switch policy {
 	case "fail":
